@@ -36,17 +36,17 @@ type c10ConcCase struct {
 }
 
 type c10ConcResult struct {
-	Keys             map[string]string `json:"keys"`
-	LockHeldAtWrite  bool              `json:"lock_held_at_write"`
-	BState           string            `json:"b_state"`
-	BObservedParked  bool              `json:"b_observed_while_parked"`
-	BStack           string            `json:"b_stack,omitempty"`
-	Order            []string          `json:"order"`        // observer calls in the order they returned (owner keys)
-	ShadowConc       [][2]string       `json:"shadow_conc"`  // kernel shadow after A and B returned
-	Shadow           [][2]string       `json:"shadow"`       // ... after the post calls
-	Index            map[string]string `json:"index"`        // tracker.ips at the end: key -> merged
-	Err              string            `json:"err,omitempty"`
-	Panic            string            `json:"panic,omitempty"`
+	Keys            map[string]string `json:"keys"`
+	LockHeldAtWrite bool              `json:"lock_held_at_write"`
+	BState          string            `json:"b_state"`
+	BObservedParked bool              `json:"b_observed_while_parked"`
+	BStack          string            `json:"b_stack,omitempty"`
+	Order           []string          `json:"order"`       // observer calls in the order they returned (owner keys)
+	ShadowConc      [][2]string       `json:"shadow_conc"` // kernel shadow after A and B returned
+	Shadow          [][2]string       `json:"shadow"`      // ... after the post calls
+	Index           map[string]string `json:"index"`       // tracker.ips at the end: key -> merged
+	Err             string            `json:"err,omitempty"`
+	Panic           string            `json:"panic,omitempty"`
 }
 
 func c10ConcCache(op c10Op, keys map[string]string) *DnsCache {
@@ -204,7 +204,8 @@ func c10ConcRun(cs c10ConcCase) (res c10ConcResult) {
 				if i := strings.IndexByte(g, '\n'); i >= 0 {
 					head = g[:i]
 				}
-				if strings.Contains(g, "sync.(*Mutex).Lock") && (strings.Contains(head, "sync.Mutex.Lock") || strings.Contains(head, "semacquire")) {
+				// wait reason of the goroutine that runs c10ConcRunB
+				if strings.Contains(head, "sync.Mutex.Lock") || strings.Contains(head, "semacquire") {
 					res.BState = "blocked"
 					res.BStack = head
 					break
